@@ -84,10 +84,24 @@ def workdir(name):
 
 
 def run_nlh(args, timeout=1800, release=False):
-    p = subprocess.run([NLH_REL if release else NLH] + [str(a) for a in args], capture_output=True, text=True, timeout=timeout)
+    p = subprocess.run([NLH_REL if release else NLH] + [str(a) for a in args], capture_output=True, text=True, timeout=tscale(timeout))
     if p.returncode != 0:
         raise ToolError(f"nlh {' '.join(map(str,args))} failed: {p.stderr[-2000:]}")
     return p.stdout
+
+
+TIER = "quick"
+THOROUGH_CAP = 8
+
+
+def nshards():
+    """record files per leg: one per core in the quick tier; the thorough tier keeps the files the same size
+    and makes more of them (they are run NCPU at a time)"""
+    return NCPU if TIER == "quick" else NCPU * THOROUGH_CAP
+
+
+def tscale(t):
+    return t if TIER == "quick" else t * 4
 
 
 def parallel(fn, items, workers=NCPU):
@@ -159,7 +173,7 @@ def run_tlc(spec, cfg, env=None, workdir_=None, workers=1, timeout=1500, xss="51
     t0 = time.time()
     r = TlcResult()
     try:
-        p = subprocess.run(cmd, cwd=SPEC, env=e, capture_output=True, text=True, timeout=timeout)
+        p = subprocess.run(cmd, cwd=SPEC, env=e, capture_output=True, text=True, timeout=tscale(timeout))
     except subprocess.TimeoutExpired:
         shutil.rmtree(meta, ignore_errors=True)
         raise ToolError(f"TLC timed out after {timeout}s on {spec}")
